@@ -4,6 +4,7 @@ import (
 	"bytes"
 	"fmt"
 	"os"
+	"sync"
 
 	zap "github.com/blevesearch/zapx/v16"
 
@@ -88,7 +89,7 @@ func persistEquiv(c *ctx, sb *zap.SegmentBase, spec sx.V, ndocs uint64, mode uin
 }
 
 func checkC04(c *ctx) {
-	c.Rule = "batches of the C01/C02/C03/C12 generators (incl. synonym documents, stored arrays, >64KB values) x chunk modes; for each: Persist bytes = WriteTo bytes; the model decodes the 52-byte footer and recomputes CRC-32 with the Gallina CRC; the persisted+opened segment's complete dump = the in-memory segment's dump = extracted spec_of_batch; plus one segment larger than 2 MiB (offsets beyond 2^21) per run; many segments are built in one process so that pooled builder state is reused; non-trivial = >= 2 docs and >= 3 tokens"
+	c.Rule = "batches of the C01/C02/C03/C12 generators (incl. synonym documents, stored arrays, >64KB values) x chunk modes; for each: Persist bytes = WriteTo bytes; the model decodes the 52-byte footer and recomputes CRC-32 with the Gallina CRC; the persisted+opened segment's complete dump = the in-memory segment's dump = extracted spec_of_batch; plus one segment larger than 2 MiB (offsets beyond 2^21) per run; many segments are built in one process so that pooled builder state is reused; thesauri may be named like ordinary doc-value fields (data in two sections); 8 goroutines persist / WriteTo different segments at the same time and every image must equal the one the segment produces alone; non-trivial = >= 2 docs and >= 3 tokens"
 	c.Assumptions = append(c.Assumptions, "mmap/open are OS behaviour; vectors are covered by C14 (vectors tag)")
 	n := c.n(150, 3000)
 	saved := zap.LegacyChunkMode
@@ -132,8 +133,14 @@ func checkC04(c *ctx) {
 			return
 		}
 	}
-	// a segment larger than 2 MiB: every varint length class of offsets below 2^28 occurs
+	// different segments persisted at the same time (an indexer flushes and merges concurrently):
+	// every image must equal the image the same segment produces alone
 	zap.LegacyChunkMode = saved
+	if bad := concurrentPersist(c); bad != "" {
+		c.Violation("C04 segments persisted concurrently by different goroutines\n"+bad, false)
+		return
+	}
+	// a segment larger than 2 MiB: every varint length class of offsets below 2^28 occurs
 	o := zh.RandOpts(c.R, 36, "big")
 	o.DVMask = 31
 	o.NFields = 3
@@ -152,4 +159,79 @@ func checkC04(c *ctx) {
 	if bad := persistEquiv(c, sb, spec, uint64(len(b)), 1026, !c.Quick); bad != "" {
 		c.Violation("C04 persist / open equivalence on a segment larger than 2 MiB (36 documents with ~66 KB stored values, doc-value fields)\n"+clip(bad), false)
 	}
+}
+
+func concurrentPersist(c *ctx) string {
+	g := 8
+	rounds := c.n(150, 3000)
+	type job struct {
+		sb    *zap.SegmentBase
+		ref   []byte
+		ndocs uint64
+		mode  uint32
+	}
+	jobs := make([]job, g)
+	for j := range jobs {
+		b := zh.GenBatch(c.R, zh.RandOpts(c.R, 1+c.R.Intn(6), fmt.Sprintf("p%d", j)))
+		mode := randMode(c)
+		sb, _, err := zh.Build(b, mode)
+		if err != nil {
+			return "build failed: " + err.Error()
+		}
+		ref, err := zh.FileBytes(sb)
+		if err != nil {
+			return "WriteTo failed: " + err.Error()
+		}
+		if bad := footerCheck(c, ref, uint64(len(b)), mode); bad != "" {
+			return "serial image: " + bad
+		}
+		jobs[j] = job{sb, ref, uint64(len(b)), mode}
+	}
+	errs := make(chan string, g)
+	var wg sync.WaitGroup
+	for j := range jobs {
+		wg.Add(1)
+		go func(j int) {
+			defer wg.Done()
+			jb := jobs[j]
+			path := zh.TmpPath(fmt.Sprintf("c04p%d", j))
+			defer os.Remove(path)
+			for k := 0; k < rounds; k++ {
+				var got []byte
+				var err error
+				if k%2 == 0 {
+					os.Remove(path)
+					if err = zap.PersistSegmentBase(jb.sb, path); err == nil {
+						got, err = os.ReadFile(path)
+					}
+				} else {
+					got, err = zh.FileBytes(jb.sb)
+				}
+				if err != nil {
+					errs <- fmt.Sprintf("goroutine %d round %d: %v", j, k, err)
+					return
+				}
+				if !bytes.Equal(got, jb.ref) {
+					errs <- fmt.Sprintf("goroutine %d round %d: image of %d bytes differs from the %d-byte image the same segment (%d docs, mode %d) produces alone; last 52 bytes got %x want %x",
+						j, k, len(got), len(jb.ref), jb.ndocs, jb.mode, tail(got, 52), tail(jb.ref, 52))
+					return
+				}
+			}
+		}(j)
+	}
+	wg.Wait()
+	close(errs)
+	c.Case("concurrent-persist", true)
+	c.CountN("concurrent_persists", g*rounds)
+	for e := range errs {
+		return e
+	}
+	return ""
+}
+
+func tail(b []byte, n int) []byte {
+	if len(b) < n {
+		return b
+	}
+	return b[len(b)-n:]
 }
